@@ -4,7 +4,7 @@
 
   OBLIGATIONS (checked by the harness: every name is a theorem of this file, axioms audited):
     strategies_order supports_probe_agrees union_is_first_nonNone single_eq_generic
-    forest_positional_differs true_pred_irrelevant
+    forest_positional_differs true_pred_irrelevant self_prefix_irrelevant_partial
 -/
 import Genshi.Model.Path
 import Genshi.Model.PathParse
@@ -196,5 +196,43 @@ theorem true_pred_irrelevant (ns : NsMap) (vs : Vars) (t : Expr) (ht : AlwaysTru
 example (ns : NsMap) (vs : Vars) : AlwaysTrue ns vs (.fn0 .true_) := fun e => by cases e <;> rfl
 example (ns : NsMap) (vs : Vars) :
     AlwaysTrue ns vs (.cmp .eq (.num (.dec false 1 0)) (.num (.dec false 1 0))) := fun _ => rfl
+
+/-! ## `./p` and `p` -/
+
+/-- **self_prefix_irrelevant** (partial).
+    Full statement: for every location path `p`, both modes, both caller behaviours and every
+    stream, `./p` and `p` report the same matches.
+    Proved here: relative mode (`ignore_context = False`), `p` starting on the child, descendant
+    or attribute axis (the paths that are spelled with or without `./` in practice), any
+    further steps and predicates, every element tree, both caller behaviours, under
+    GenericStrategy: `self::node()/p` and `p` go through identical states after the context
+    node, because from depth 1 on no candidate position refers to the first step
+    (`Lemmas/PathSpelling.lean`: `sim_tail`).
+    Missing: `p` starting with `self::` / `descendant-or-self::` (the step lists then differ in
+    length); the pattern mode, where `./` is dropped before matching (code fix 512c830's
+    successor in this branch; checked by correspondence and oracle); the specialised strategies
+    for `p` (covered for one-step `p` by `single_eq_generic`). -/
+theorem self_prefix_irrelevant_partial (s0 : Step) (rest : LocPath) (ns : NsMap) (vs : Vars)
+    (hax : s0.axis = .child ∨ s0.axis = .descendant ∨ s0.axis = .attribute) (skip : Bool)
+    (tag : QName) (attrs : AttrList) (kids : List Node) (hok : okList kids = true) :
+    traceCaller (pathTest [dot :: s0 :: rest] false (some .generic)).1 ns vs skip
+        (pathTest [dot :: s0 :: rest] false (some .generic)).2 (Node.elem tag attrs kids).flatten
+      = traceCaller (pathTest [s0 :: rest] false (some .generic)).1 ns vs skip
+        (pathTest [s0 :: rest] false (some .generic)).2 (Node.elem tag attrs kids).flatten := by
+  have h1 : gSteps (dot :: s0 :: rest) false = dot :: s0 :: rest := by simp [gSteps, dot]
+  have h2 : gSteps (s0 :: rest) false = dotSlash :: s0 :: rest := by
+    rcases hax with h | h | h <;> simp [gSteps, h]
+  simp only [traceCaller, pathTest, List.map_cons, List.map_nil, mkMatcher, h1, h2]
+  rw [runTest_generic, runTest_generic]
+  congr 1
+  simp only [Node.flatten, runOne_cons, runOne_append]
+  obtain ⟨hroot, hR⟩ := gStep_root_tail ns vs (s0 :: rest) (by simp) gInit [] rfl tag attrs
+  have hk := (sim_tail ns vs (dot :: s0 :: rest) (dotSlash :: s0 :: rest)
+    ⟨dot, dotSlash, s0 :: rest, rfl, rfl, rfl, by simp⟩).flattenList kids hok 1 (Nat.le_refl _) _ _ hR
+  rw [hroot] at hk ⊢
+  rw [hk.1]
+  obtain ⟨heq, _⟩ := hk.2
+  rw [heq]
+  simp [runOne, gStep_end]
 
 end Genshi.Props.C17
